@@ -205,7 +205,6 @@ let handle_chart_case c =
     else let (present, reps) = darr.(i) in if present then ROk reps else RNotFound in
   let reports = List.concat (List.map snd days) in
   let missing = List.exists (fun (p, _) -> not p) days in
-  let wf = config_wellformed cfg in
   (* ---- model vs implementation *)
   (match handle_chart iter_id lt_sem lt_go cfg read start end_ with
    | ChartOk (name, cd) ->
@@ -223,11 +222,10 @@ let handle_chart_case c =
     if status <> "notfound" then
       prop "missing-day-not-found" (Printf.sprintf "a day of the range has no merged object, the handler answered %s" status)
   end else if status = "panic" then begin
-    if not wf then
-      prop "malformed-goversion"
-        (Printf.sprintf "handleChart panics: configured GoVersion list [%s] with %d reports in range"
-           (String.concat "," (List.map string_of_bytes cfg.cf_goversion)) (List.length reports))
-    else prop "chart-panic" "handleChart panics on a configuration whose Go versions all have the goN.M shape"
+    (* charts() never panics in the model (C13_handle_chart_never_panics), for any configuration *)
+    prop "malformed-goversion"
+      (Printf.sprintf "handleChart panics: configured GoVersion list [%s] with %d reports in range"
+         (String.concat "," (List.map string_of_bytes cfg.cf_goversion)) (List.length reports))
   end else begin
     match impl_cd with
     | Some (_, icd) when status = "ok" ->
@@ -244,7 +242,7 @@ let handle_chart_case c =
         prop "partition-value" (clip detail)
       end;
       if not det then prop "chart-deterministic" "the same set of reports (re-run / re-ordered / moved between the days of the range) gave a different chart object"
-    | _ -> prop "chart-status" (Printf.sprintf "all days present, well-formed=%b, handler answered %s/%s" wf status tag)
+    | _ -> prop "chart-status" (Printf.sprintf "all days present, handler answered %s/%s" status tag)
   end
 
 let handle kind c =
@@ -278,12 +276,11 @@ let handle kind c =
     let v = next_bytes c in
     let ok = next_bool c in
     let res = next_bytes c in
-    (match go_major_minor v with
-     | None -> if ok then diff "goMajorMinor" ~model:"panic" ~impl:(string_of_bytes res)
-     | Some r ->
-       if not ok then diff "goMajorMinor" ~model:(string_of_bytes r) ~impl:"panic"
-       else check_eq "goMajorMinor" string_of_bytes r res);
-    if malformed_goversion v <> not ok then diff "malformed-goversion-class" ~model:(string_of_bool (malformed_goversion v)) ~impl:(string_of_bool (not ok))
+    let r = go_major_minor v in
+    if not ok then begin
+      diff "goMajorMinor" ~model:(string_of_bytes r) ~impl:"panic";
+      prop "malformed-goversion" ("goMajorMinor panics on " ^ tok_of_bytes v ^ " (\"" ^ String.escaped (string_of_bytes v) ^ "\")")
+    end else check_eq "goMajorMinor" string_of_bytes r res
   | "split" ->
     let s = next_bytes c in
     let g = next_bytes c in
